@@ -41,4 +41,11 @@ META = {
                     "x 3 element types plus random clustered ranges under UBSan (pivot cast).",
             "note": "Definitions re-implemented in long double in the harness; UBSan/ASan runtimes; sampled executions (search sweep exhaustive up to length 8).",
             "technique": "runtime monitoring: definition-level oracle, exhaustive small-scope sweep for the search, ASan/UBSan"},
+    "C10": {"text": "Exploration: solve_linear_ldlt / solve_trust_region on 6k (quick) / 200k (thorough) random regularised least-squares problems "
+                    "(all shapes up to 40x40, dense + sparse, exact rank deficiency, 12 decades of lambda and d): normal-equation backward error in long "
+                    "double, dense-vs-sparse and distance to the long-double minimiser (cond <= 1e8, Jacobi eigenvalues), dphi against the exact "
+                    "derivative formula at the returned dx, no increase of the linearised cost, colwise_norm against its definition.",
+            "note": "Reference = long-double normal equations (full-pivot LU) and Jacobi eigenvalues for the condition number; known finding F12/F13 "
+                    "(sparse path on numerically singular systems) is listed in known_findings.json and suppressed only inside cond > 1e15.",
+            "technique": "runtime monitoring: reference-model oracle (long-double linear algebra) on random and degenerate systems, ASan/UBSan"},
 }
